@@ -1,0 +1,59 @@
+//go:build verif
+
+// Contracts for package config, read by the verification-condition generator in
+// /verif (govc).  Comment-only.
+
+package config
+
+// ---------------------------------------------------------------- overwritable / commitable
+
+//@ props C17 C16
+//@ func overwritable.Get
+//@   nopanic
+//@   pure
+//@   ensures result == (o.overwritten.some ? o.overwritten.value : o.value)
+
+// ---------------------------------------------------------------- ConfigProp
+// Abstract state of a property p, read from its atomic cell aload(p.value):
+//   base     = .comittedValue.value              (what the file holds / will hold)
+//   override = .comittedValue.overwritten        (command-line override, optional)
+//   staged   = .stagedValue                      (pending API update, optional)
+
+//@ props C17 C19 C16
+//@ func ConfigProp.Read
+//@   nopanic
+//@   requires aset(p.value)
+//@   ensures [C17] result == (aload(p.value).comittedValue.overwritten.some ? aload(p.value).comittedValue.overwritten.value : aload(p.value).comittedValue.value)
+
+//@ props C17 C16
+//@ func ConfigProp.Overwrite
+//@   nopanic
+//@   requires aset(p.value)
+//@   ensures [C17] aload(p.value).comittedValue.overwritten.some && aload(p.value).comittedValue.overwritten.value == value
+//@   ensures [C17] aload(p.value).comittedValue.value == old(aload(p.value).comittedValue.value)
+
+// Staging keeps the committed state (base and override) and records the new
+// base together with the current override; every subscriber is started with the new value.
+//@ props C17 C19 C18 C16
+//@ func ConfigProp.Stage
+//@   nopanic
+//@   requires aset(p.value)
+//@   ensures [C17] aload(p.value).comittedValue.value == old(aload(p.value).comittedValue.value) && aload(p.value).comittedValue.overwritten.some == old(aload(p.value).comittedValue.overwritten.some) && aload(p.value).comittedValue.overwritten.value == old(aload(p.value).comittedValue.overwritten.value)
+//@   ensures [C17] aload(p.value).stagedValue.some && aload(p.value).stagedValue.value.value == newValue
+//@   ensures [C17] aload(p.value).stagedValue.value.overwritten.some == old(aload(p.value).comittedValue.overwritten.some) && aload(p.value).stagedValue.value.overwritten.value == old(aload(p.value).comittedValue.overwritten.value)
+//@   ensures [C19] forall k int :: 0 <= k && k < len(p.onChange.subscribers) ==> gocalls(p.onChange.subscribers[k].fn) > old(gocalls(p.onChange.subscribers[k].fn)) && golastarg(p.onChange.subscribers[k].fn) == newValue
+
+// Committing makes the staged value the committed one; the override travels with it.
+//@ props C17 C18 C16
+//@ func ConfigProp.CommitStaged
+//@   nopanic
+//@   requires aset(p.value)
+//@   ensures [C17] old(aload(p.value).stagedValue.some) ==> aload(p.value).comittedValue.value == old(aload(p.value).stagedValue.value.value) && aload(p.value).comittedValue.overwritten.some == old(aload(p.value).stagedValue.value.overwritten.some) && aload(p.value).comittedValue.overwritten.value == old(aload(p.value).stagedValue.value.overwritten.value) && !aload(p.value).stagedValue.some
+//@   ensures [C17] !old(aload(p.value).stagedValue.some) ==> aload(p.value).comittedValue.value == old(aload(p.value).comittedValue.value) && aload(p.value).comittedValue.overwritten.some == old(aload(p.value).comittedValue.overwritten.some)
+
+// Saving a property writes its base value: a command-line override is never written into the file.
+//@ props C17 C16
+//@ func ConfigProp.MarshalJSON
+//@   nopanic
+//@   requires aset(p.value)
+//@   ensures [C17] result1 == nil ==> sid(result0) == jsonenc(aload(p.value).comittedValue.value)
